@@ -3,6 +3,7 @@ package worlds
 import (
 	"fmt"
 	"runtime/debug"
+	"sort"
 	"strings"
 	"testing"
 	"time"
@@ -131,11 +132,13 @@ func genC13Mut(r *h.Rng, tier string, idx int) *h.Plan {
 			case 3:
 				c13Place(r, m, "big", strings.Repeat("x", 100000), 0)
 			case 4:
+				ks := make([]string, 0, len(m))
 				for k := range m {
-					if r.P(1, 2) {
-						delete(m, k) // drop required parts
-						break
-					}
+					ks = append(ks, k)
+				}
+				sort.Strings(ks)
+				if len(ks) > 0 {
+					delete(m, r.Pick(ks)) // drop a required part
 				}
 			case 5:
 				m = map[string]interface{}{}
